@@ -10,6 +10,9 @@ class Transc (α : Type) where
   abs : α → α
 
 instance : Transc Float := ⟨Float.exp, Float.sqrt, Float.abs⟩
+/-- integers enter float arithmetic by conversion (`np.exp(min(iteration, 100))`, `10**k / std`) -/
+scoped instance : NatCast Float := ⟨Nat.toFloat⟩
+scoped instance : Pow Float Nat := ⟨fun b n => Float.pow b n.toFloat⟩
 
 section rules
 variable {α : Type} [Add α] [Sub α] [Mul α] [Div α] [Neg α] [OfNat α 0] [OfNat α 1] [OfNat α 2]
@@ -60,6 +63,18 @@ def brplsW (m u e : α) : α := 1 / (1 + m * (1 + e) * Transc.exp (u * u))
 
 end rules
 
+section caps
+variable {α : Type} [NatCast α]
+/-- `min(iteration, cap)` of the 1-based integer iteration count, used as a number -/
+def capIter (cap it : Nat) : α := ((min it cap : Nat) : α)
+/-- drpls, iarpls: `np.exp(min(iteration, 100))` -/
+def expK [Transc α] (it : Nat) : α := Transc.exp (capIter 100 it)
+/-- lsrpls: `10**(min(iteration, 100))` -/
+def tenK [Pow α Nat] (it : Nat) : α := ((10 : Nat) : α) ^ (min it 100)
+/-- airpls: `min(iteration, 50)` -/
+def airplsT (it : Nat) : α := capIter 50 it
+end caps
+
 /-! ### executable vector-level rules at `Float` (what the driver runs) -/
 
 def fsum (l : List Float) : Float := l.foldl (· + ·) 0
@@ -95,18 +110,18 @@ def ruleDrpls (iteration : Nat) (r : List Float) : RuleOut :=
   let n := negs r
   if n.length < 2 then ⟨zerosLike r, true⟩ else
     let s := safeStd1 n
-    ⟨r.map (drplsW (Float.exp (fmin iteration.toFloat 100)) s (fmean n)), false⟩
+    ⟨r.map (drplsW (expK iteration) s (fmean n)), false⟩
 
 def ruleLsrpls (iteration : Nat) (r : List Float) : RuleOut :=
   let n := negs r
   if n.length < 2 then ⟨zerosLike r, true⟩ else
     let s := safeStd1 n
-    ⟨r.map (drplsW (Float.pow 10 (fmin iteration.toFloat 100)) s (fmean n)), false⟩
+    ⟨r.map (drplsW (tenK iteration) s (fmean n)), false⟩
 
 def ruleIarpls (iteration : Nat) (r : List Float) : RuleOut :=
   let n := negs r
   if n.length < 2 then ⟨zerosLike r, true⟩ else
-    ⟨r.map (iarplsW (Float.exp (fmin iteration.toFloat 100)) (safeStd1 n)), false⟩
+    ⟨r.map (iarplsW (expK iteration) (safeStd1 n)), false⟩
 
 def ruleAspls (k : Float) (r : List Float) : RuleOut :=
   let n := negs r
@@ -117,7 +132,7 @@ def ruleAirpls (iteration : Nat) (normalize : Bool) (M : Float) (r : List Float)
   let n := negs r
   if n.length < 2 then ⟨zerosLike r, true⟩ else
     let S := fsum n
-    let raw := r.map (airplsRaw (fmin iteration.toFloat 50) S M)
+    let raw := r.map (airplsRaw (airplsT iteration) S M)
     if normalize then
       let mx := (raw.zip r).foldl (fun acc (p : Float × Float) => if p.2 < 0 && acc < p.1 then p.1 else acc) 0
       ⟨(raw.zip r).map fun (p : Float × Float) => if p.2 < 0 then p.1 / mx else p.1, false⟩
